@@ -1686,7 +1686,7 @@ def search(ctx: core.Ctx):
         if ctx.oracle_failures:
             return
     old = os.environ.get("VERIF_BUDGET_SCALE")
-    os.environ["VERIF_BUDGET_SCALE"] = str(3 * float(old or "1"))
+    os.environ["VERIF_BUDGET_SCALE"] = str(2 * float(old or "1"))
     try:
         for fn in (_stream_roundtrip, _stream_exhaustive, _stream_malformed, _stream_sideband, _stream_bufwriter,
                    _stream_caps, _stream_rpops, _stream_script, _stream_trailer, _stream_oversize, _stream_parselen,
